@@ -45,6 +45,16 @@ func suiteRootFs(h *H) {
 		dirs := []string{"r/oot", "r/oot/a", "r/oot/a/b", "r/oot/d", "r/out"}
 		targets := []string{"a", "a/b", "../a", "..", "../..", "../out", "../../out", "../out/secret", "f", "a/b/f", "nowhere", "l1", "l2", "l3", "../d/l1", ".", "./a/./b", "a/../d",
 			"a/b/../../..", "/ABS/r/out", "/ABS/r/oot/a", "/etc", "d/../a/b/f", "x", "../oot/a", "a//b", "a/b/"}
+		// every fourth tree: link targets that end in a slash and name another link. Go 1.25.0's os.Root follows
+		// such a link in the last position to wherever the next link points (D35, D43–D45 in DESIGN.md): like names
+		// with a trailing slash this is outside the contract the model states, so these trees are recorded
+		// (how often the runtime leaves the root is printed into the evidence), not compared with the model
+		slashTargets := t%4 == 3
+		if slashTargets {
+			targets = append(targets, "l1/", "l2/", "l3/", "../d/l1/", "x/", "y/", "../out/", "a/b/", "l1/", "l2/")
+			targets = append(targets, targets[len(targets)-10:]...)
+			entries = append(entries, rfEntry{"r/oot/ls", 'l', "lo/"}, rfEntry{"r/oot/lo", 'l', "../out"}, rfEntry{"r/oot/a/ls2", 'l', "../lo/"})
+		}
 		have := map[string]bool{}
 		for _, e := range entries {
 			have[e.loc] = true
@@ -173,6 +183,14 @@ func suiteRootFs(h *H) {
 				f := "0"
 				if follow {
 					f = "1"
+				}
+				if slashTargets {
+					if v != "" {
+						h.stat("rootfs.link-target-slash-escape(observed, Go runtime)")
+					}
+					h.emit(fmt.Sprintf("!rootfs-link-target-slash tree=%d %s %q", t, f, p), out, "", false)
+					h.stat("rootfs.link-target-slash-tree-case")
+					continue
 				}
 				if trailing {
 					if v != "" {
